@@ -53,21 +53,21 @@ func Globals() string {
 
 // Input is one shared argument set. Every slice reachable from it is part of the snapshot.
 type Input struct {
-	Name   string
-	Model  *ref.G
-	T      geom.T
-	WKB    []byte
-	EWKB   []byte
-	Hex    string
+	Name  string
+	Model *ref.G
+	T     geom.T
+	WKB   []byte
+	EWKB  []byte
+	Hex   string
 	// HexText: the hex text of the EWKB encoding as a BYTE SLICE - what a text-mode database
 	// connection hands to a Scan method; no decoder accepts it as binary, none may write to it
 	HexText []byte
-	WKT    string
-	JSON   []byte
-	IGC    []byte
-	Coords [][]float64 // low-level coordinate arguments (each with spare capacity)
-	Flat   []float64   // flat coordinate argument for *Flat functions
-	Layout geom.Layout
+	WKT     string
+	JSON    []byte
+	IGC     []byte
+	Coords  [][]float64 // low-level coordinate arguments (each with spare capacity)
+	Flat    []float64   // flat coordinate argument for *Flat functions
+	Layout  geom.Layout
 	// BadT is a geometry that no text/binary encoder can finish: a collection whose LAST member
 	// has a layout the format cannot carry, so the encoder fails after it has written the others
 	BadT geom.T
